@@ -16,7 +16,6 @@ package fragmentation
 
 import (
 	"container/heap"
-	"fmt"
 	"math"
 	"sync"
 	"time"
@@ -39,6 +38,7 @@ type reassembler struct {
 	deleted      int
 	heap         fragHeap
 	done         bool
+	broken       bool
 	creationTime time.Time
 }
 
@@ -82,7 +82,7 @@ func (r *reassembler) process(first, last uint16, more bool, vv buffer.Vectorise
 	r.mu.Lock()
 	defer r.mu.Unlock()
 	consumed := 0
-	if r.done {
+	if r.done || r.broken {
 		// A concurrent goroutine might have already reassembled
 		// the packet and emptied the heap while this goroutine
 		// was waiting on the mutex. We don't have to do anything in this case.
@@ -100,9 +100,21 @@ func (r *reassembler) process(first, last uint16, more bool, vv buffer.Vectorise
 	}
 	res, err := r.heap.reassemble()
 	if err != nil {
-		panic(fmt.Sprintf("reassemble failed with: %v. There is probably a bug in the code handling the holes.", err))
+		// The fragments contradict each other (for instance data beyond a
+		// fragment that claimed to be the last one), so the holes were
+		// "filled" by pieces that do not form a datagram. The peer controls
+		// this input: give up on the datagram instead of panicking.
+		r.broken = true
+		return buffer.VectorisedView{}, false, consumed
 	}
 	return res, true, consumed
+}
+
+// isBroken reports whether reassembly failed and the reassembler must be dropped.
+func (r *reassembler) isBroken() bool {
+	r.mu.Lock()
+	defer r.mu.Unlock()
+	return r.broken
 }
 
 func (r *reassembler) tooOld(timeout time.Duration) bool {
